@@ -79,10 +79,11 @@ def check_mapping(reg, model, what, content=None, also_absent=()):
                 what, key, item.id, item.entity.record.id))
         if not isinstance(item.entity.record, CircularRecord):
             raise Violation("RECORD", "%s: %r does not hold a circular record" % (what, key))
-        if item.resistance not in ANTIBIOTICS:
+        # compared by equality, not by hash: the value may be a str subclass
+        if not any(item.resistance == x for x in ANTIBIOTICS):
             raise Violation("RESISTANCE", "%s: %r has resistance %r" % (what, key, item.resistance))
         labels = set(l for f in item.record.features for l in f.qualifiers.get("label", []))
-        if item.resistance not in {LABELS[l] for l in labels if l in LABELS}:
+        if not any(item.resistance == LABELS[l] for l in labels if l in LABELS):
             raise Violation("RESISTANCE", "%s: %r resistance %r is not backed by a feature label (%r)"
                             % (what, key, item.resistance, sorted(labels & set(LABELS))))
         if model[key] is not None and str(item.record.seq).upper() != model[key].upper():
